@@ -1010,6 +1010,61 @@ theorem panelDfs_column_eq_recursive_partial {e : Env} {ps : St} (hC : ColOK e p
   obtain ⟨ps', post, h1, h2, h3, h4, h5, h6, h7, h8, h9, _⟩ := panelCol_eq_dfsList hC hfuel hrows
   exact ⟨ps', post, h1, h2, h3, h4, h5, h6, h7, h8, h9⟩
 
+/-- **C02 (`[sdcz]panel_dfs`, the whole routine = the recursive search, column by column).**  For every state
+accepted by the decidable predicate `wfPanelIn` (sizes; pivot columns `< jcol`; representatives and pruned lists
+well formed = acyclic; `marker[0..m)` and `marker1` hold values `< jcol`; the panel's `repfnz` is clean; the
+panel columns of A lie inside `asub`/`nzval` with rows in range) the model of the routine terminates within
+`fuelBound` and
+* for EVERY panel column `jcol + k` the set `{s : repfnz_col[s] != EMPTY}` left in the column's slice of `repfnz`
+  is exactly `colPost i k` — the list the RECURSIVE search `Slu.LU.dfsList` computes on the graph read off the
+  arrays (`Slu.ColDfs.adjR`: pruned lists, storage order) from the pivot columns of the rows of `A(:, jcol+k)`;
+* `segrep[0..nseg)` is `segSpec i w`: the concatenation, over the panel columns in order, of each column's
+  postorder `(colPost i k).reverse` restricted to the representatives that no earlier column has put there
+  (the effect of the shared `marker1`), without duplicates, all `< jcol`.
+(Because the set found by the earlier columns is closed under successors, "postorder of the full search
+restricted to the new representatives" and "postorder of the search that treats the earlier ones as visited" are
+the same list; the restriction form is what is proved.) -/
+theorem panelDfs_eq_recursive {V : Type} (i : Input V) (h : wfPanelIn i = true) :
+    ∃ o, panelDfs i (fuelBound i) = some o ∧
+      (∀ k : Nat, (k : Int) < i.w → ∀ s : Nat, (s : Int) < i.jcol → (rd o.repfnz (k * i.m + s) ≠ EMPTY ↔ s ∈ colPost i k)) ∧
+      0 ≤ o.nseg ∧ slice o.segrep 0 o.nseg = segSpec i i.w.toNat ∧ (segSpec i i.w.toNat).Nodup ∧
+      (∀ t ∈ segSpec i i.w.toNat, 0 ≤ t ∧ t < i.jcol) :=
+  panelDfs_spec h
+
+/-- **C02 (`segrep` after `[sdcz]panel_dfs`: no duplicates, the union of the reaches, topological).**  On every
+state accepted by `wfPanelIn`: `segrep[0..nseg)` = `P` (as integers) where `P` has no duplicates, lists exactly
+the representatives reachable from SOME panel column (from the pivot columns of its rows, through the pruned
+lists), and places every successor `r` of a listed representative `k` BEFORE `k` (so the reverse order, the one
+`[sdcz]panel_bmod` walks, is a topological order of the union); the graph is acyclic and stays below `jcol`. -/
+theorem panelDfs_segrep_topo {V : Type} (i : Input V) (h : wfPanelIn i = true) :
+    ∃ o P, panelDfs i (fuelBound i) = some o ∧ 0 ≤ o.nseg ∧ slice o.segrep 0 o.nseg = P ∧ P.Nodup ∧
+      (∀ x : Nat, (x : Int) ∈ P ↔ ∃ k : Nat, (k : Int) < i.w ∧
+        ∃ s ∈ (ColDfs.rootCols i.cenv (colRows i (i.jcol + k))).map (ColDfs.repN i.cenv), Reach (ColDfs.adjR i.cenv i.lsub) s x) ∧
+      (∀ a r : Nat, (a : Int) ∈ P → r ∈ ColDfs.adjR i.cenv i.lsub a → [(r : Int), (a : Int)] <+ P) ∧
+      (∀ t ∈ P, 0 ≤ t ∧ t < i.jcol) ∧
+      (∀ k, ∀ r ∈ ColDfs.adjR i.cenv i.lsub k, k < r ∧ r < i.jcol.toNat) := by
+  obtain ⟨o, h1, _, h3, h4, h5, h6⟩ := panelDfs_eq_recursive i h
+  have hE := wfPanelIn_env h
+  have hadj := ColDfs.adjR_lt hE
+  have hw : 1 ≤ i.w := (wfPanelIn_unpack h).1.2.1
+  refine ⟨o, _, h1, h3, h4, h5, ?_, segSpec_topo i h i.w.toNat (by omega), h6, hadj⟩
+  intro x
+  rw [mem_segSpec]
+  constructor
+  · rintro ⟨k, hk, hx⟩
+    obtain ⟨s, hs, hsx⟩ := mem_map.mp hx
+    have : s = x := Int.ofNat.inj hsx
+    subst this
+    have hroots := ColDfs.rootCols_lt hE (wfPanelIn_rows h (k := k) (by omega))
+    refine ⟨k, by omega, ?_⟩
+    have := (mem_dfsPost_iff hadj _ hroots s).mp (mem_reverse.mpr hs)
+    exact this
+  · rintro ⟨k, hk, hx⟩
+    have hroots := ColDfs.rootCols_lt hE (wfPanelIn_rows h (k := k) hk)
+    refine ⟨k, by omega, mem_map.mpr ⟨x, ?_, rfl⟩⟩
+    have := (mem_dfsPost_iff hadj _ hroots x).mpr hx
+    exact mem_reverse.mp this
+
 /-! example: the factored state of `Slu.ColDfs.exIn` (8 rows, columns 0..5 factored), panel of the columns 6, 7:
 A(:,6) has rows 0, 7 and A(:,7) has rows 3, 1, 6.  Column 6 reaches 0 → 2 → 5, 4 (`segrep` 5 2 4 0); column 7
 reaches 3 (new) and, through row 1 (column 1, representative 2), 2 → 5 again: not recorded a second time. -/
@@ -1036,5 +1091,10 @@ example : (panelDfs exP (fuelBound exP)).map (fun o => (slice o.panelLsub 0 3, s
     some ([6, 7, -1], [7, 6, -1], [10, 0, 0, 0, 0, 0, 0, 11, 0, 13, 0, 12, 0, 0, 14, 0]) := by decide +kernel
 example := panelDfs_column_eq_recursive_partial (wfPanelIn_colOK0 (i := exP) (by decide +kernel)) (fuel := fuelBound exP) (le_refl _)
   (by have := wfPanelIn_rows (i := exP) (by decide +kernel) (k := 0) (by decide); simpa using this)
+
+example := panelDfs_eq_recursive exP (by decide +kernel)
+example := panelDfs_segrep_topo exP (by decide +kernel)
+example : segSpec exP 2 = [5, 2, 4, 0, 3] := by decide +kernel
+example : (colPost exP 0, colPost exP 1) = ([0, 4, 2, 5], [2, 5, 3]) := by decide +kernel
 
 end Slu.PanelDfs
